@@ -58,6 +58,7 @@ def dispatch (op : String) (args : List String) (obs : String) : String × Strin
   | "fl" => c12fl args obs
   | "ind" => c12ind args obs
   | "indr" => c12indr args obs
+  | "flr" => c12flr args obs
   | "cf" => c12cf args obs
   | "badc" => c12badc args obs
   | "rst" => c18rst args obs
